@@ -22,6 +22,7 @@ from eliot import MessageType, ActionType, Field, Logger, start_action, log_mess
 ID = "C13"
 LEVEL = "exploration"
 SHARDS = 4
+CASE_TIMEOUT = 900
 RULE = (
     "type definitions = every assignment of serializers {identity, wrap, str, raising, Field.for_types pass-through} to 1-3 declared "
     "fields (every failing subset arises as the set of raising serializers); x message kind (6) x "
@@ -36,7 +37,8 @@ ASSUMPTIONS = [
 
 SER = ["id", "wrap", "str", "raise", "for_types"]
 KINDS = ["message", "start", "success", "failed", "write+serializer", "write",
-         "write+serializer, type field missing", "write+serializer, type field wrong"]
+         "write+serializer, type field missing", "write+serializer, type field wrong",
+         "deprecated MessageType()(...).write(action=explicit action)", "deprecated MessageType()(...).write(logger)"]
 
 
 class Obj(object):
@@ -56,8 +58,55 @@ def BOUNDS(tier):
     return {"max_fields": 3 if tier == "quick" else 4}
 
 
+def run_threads(bound, shard):
+    """Two threads log a typed message whose serializer raises, through the shared default Logger:
+    each failure must be reported (traceback + serialization_failure), whatever the interleaving."""
+    from vkit import thr
+    import eliot._output as _output
+
+    def boom(v):
+        raise SerBoom("x")
+
+    BAD = MessageType("c13:bad", [Field("f", boom, "")], "")
+
+    def setup(s):
+        world.fresh()
+        seen = world.capture()
+
+        def body(who):
+            return lambda: BAD.log(f=1, who=who)
+
+        def observe(s):
+            return sorted((m.get("message_type"), 1) for m in seen)
+
+        return [("A", body("a")), ("B", body("b"))], observe
+
+    viol = []
+    execs = states = transitions = 0
+    for x in thr.explore(setup, bound, trace_files=[_output.__file__], trace_funcs={"write", "send"}, shard=shard):
+        execs += 1
+        transitions += len(x.choices)
+        states += 1 + len(x.choices)
+        kinds = [k for k, _ in x.obs]
+        if kinds.count("eliot:traceback") != 2 or kinds.count("eliot:serialization_failure") != 2 or "c13:bad" in kinds:
+            viol.append(("concurrent-serialization-failures-not-all-reported",
+                         {"got": kinds, "schedule": [c[3] for c in x.choices], "preemptions": x.preemptions}))
+            break
+        for t in x.sched.threads:
+            if t.exc is not None:
+                viol.append(("thread-raised", {"exc": repr(t.exc)}))
+    return execs, states, transitions, viol
+
+
+THR_SHARDS = 2
+
+
+def DETERMINISM_REPLAY(case):
+    return case[0] != "thr"
+
+
 def units(tier):
-    out = []
+    out = [["thr", 1 if tier == "quick" else 2, k] for k in range(THR_SHARDS)]
     for n in (1, 2, 3) if tier == "quick" else (1, 2, 3, 4):
         for sers in itertools.product(range(5), repeat=n):
             if n >= 3 and sers.count(4) > 1:
@@ -69,6 +118,9 @@ def units(tier):
 
 
 def cases(unit, tier):
+    if unit and unit[0] == "thr":
+        yield unit
+        return
     sers = unit
     n = len(sers)
     for kind in range(len(KINDS)):
@@ -80,6 +132,8 @@ def cases(unit, tier):
                             continue  # write(dict) without serializer: definition irrelevant
                         if kind in (6, 7) and (missing is not None or any(s_ == 3 for s_ in sers)):
                             continue
+                        if kind in (8, 9) and (glob or extra):
+                            continue
                         if kind == 3 and (missing is not None):
                             continue
                         yield [sers, kind, missing, extra, glob, parent]
@@ -90,6 +144,12 @@ def values():
 
 
 def run_case(case):
+    if case[0] == "thr":
+        try:
+            execs, states, transitions, viol = run_threads(case[1], (case[2], THR_SHARDS))
+        finally:
+            world.fresh()
+        return Result(outcome=["thr", execs], executions=execs, violations=viol[:2], extra={"thr_schedules": execs})
     sers, kind, missing, extra, glob, parent = case
     n = len(sers)
     viol = []
@@ -124,7 +184,7 @@ def run_case(case):
         given["extra"] = vals[3] if n < 4 else 1
     snapshot = copy.deepcopy({k: v for k, v in given.items() if not isinstance(v, Obj)})
     identities = dict(given)
-    expect_fail = ((missing is not None or any(s == 3 for s in sers)) and kind in (0, 1, 2, 4)) or kind == 6
+    expect_fail = ((missing is not None or any(s == 3 for s in sers)) and kind in (0, 1, 2, 4, 8, 9)) or kind == 6
 
     def go():
         seen = []
@@ -170,6 +230,14 @@ def run_case(case):
             elif kind == 4:
                 caller_dict = dict(given, message_type="c13:msg", task_uuid="u", task_level=[1], timestamp=1.0)
                 Logger().write(caller_dict, MT._serializer)
+            elif kind == 8:
+                explicit = start_action(action_type="c13:explicit")
+                n_before = len(seen)
+                MT(**given).write(action=explicit)
+                n_after = len(seen)
+                explicit.finish()
+            elif kind == 9:
+                MT(**given).write(Logger())
             elif kind == 6:
                 caller_dict = dict(given, task_uuid="u", task_level=[1], timestamp=1.0)
                 Logger().write(caller_dict, MT._serializer)
@@ -219,7 +287,7 @@ def run_case(case):
         under_test = [m for m in new if m.get("action_status") in ("succeeded", "failed")]
         others = []
     else:
-        under_test = [m for m in new if not is_report(m) and m.get("action_type") != "c13:parent"]
+        under_test = [m for m in new if not is_report(m) and m.get("action_type") not in ("c13:parent", "c13:explicit")]
         others = []
     if kind == 7 and len(under_test) == 1 and under_test[0].get("message_type") != "c13:msg":
         viol.append(("declared-type-field-not-serialized", {"case": case, "got": under_test[0].get("message_type")}))
@@ -236,7 +304,7 @@ def run_case(case):
             tb, sf = reports
             if not isinstance(sf.get("message"), str) or not isinstance(tb.get("traceback"), str):
                 viol.append(("failure-report-content", {"case": case}))
-            if parent:
+            if parent and kind != 8:
                 pl = P._task_level.as_list()
                 if not (
                     tb["task_uuid"] == sf["task_uuid"] == P.task_uuid
@@ -245,7 +313,7 @@ def run_case(case):
                     and sf["task_level"][-1] == tb["task_level"][-1] + 1
                 ):
                     viol.append(("failure-reports-placement", {"case": case, "tb": tb["task_level"], "sf": sf["task_level"], "parent": pl}))
-            else:
+            elif kind != 8:
                 if tb["task_level"] != [1] or sf["task_level"] != [1] or tb["task_uuid"] == sf["task_uuid"]:
                     viol.append(("failure-reports-placement", {"case": case, "tb": tb["task_level"], "sf": sf["task_level"]}))
     else:
